@@ -53,6 +53,11 @@ def answer (kv : KV) : String :=
       match zeroize (zOf kind) n a with
       | some r => describe r
       | none => "unknown"
+    | "const_item" =>
+      -- a const item holding `const_default()`: accepted, N elements, every one the element default
+      match constDefault (dOf kind) n with
+      | some r => s!"len={r.length} all_default={if r.all (· == dOf kind) then 1 else 0}"
+      | none => "unknown"
     | "const_default" =>
       match constDefault (dOf kind) n with
       | some r => describe r
